@@ -37,6 +37,9 @@ DOCS = [
     {"a": {"a": {"a": {"b": 1}}}, "b": {"a": {"b": 2}}},
     [[[7]]],
     {"x": 2, "a": [{"b": [1, 2]}, {"b": [3]}]},
+    # members whose names are another member's name behind the non-standard `~` / `#` markers (always present, not left to sampling)
+    {"~": 1, "": 2, "#": 3, "~1": 4, "1": 5, "#a": {"a": 6}, "a": {"#a": 7, "~a": 8}, "~a": [9]},
+    {"e\u0301": 1, "\u00e9": 2, "\u212b": {"\u00c5": 3}, "\u00c5": 4},
 ]
 
 
